@@ -535,7 +535,16 @@ func roundTrip(v any) (*lexer.StatefulDefinition, string) {
 	if err != nil {
 		return nil, fmt.Sprintf("New(unmarshalled rules) failed: %v\nJSON: %s", err, data)
 	}
-	return def, ""
+	// the unmarshalled rules are a value like any other: a second definition built from them is the same definition
+	// (slices that json.Unmarshal grew have spare capacity, unlike slices written as literals)
+	var again *lexer.StatefulDefinition
+	if p := guard(func() { again, err = lexer.New(rules) }); p != "" || err != nil {
+		return nil, fmt.Sprintf("New(unmarshalled rules) succeeded once, the second call on the same rules: %v %s\nJSON: %s", err, p, data)
+	}
+	if !reflect.DeepEqual(def.Symbols(), again.Symbols()) {
+		return nil, fmt.Sprintf("two definitions built from the same unmarshalled rules have different symbol tables:\n first  %v\n second %v\nJSON: %s", sortedSyms(def.Symbols()), sortedSyms(again.Symbols()), data)
+	}
+	return again, ""
 }
 
 // another definition whose JSON is about as long as a generated one's
